@@ -133,6 +133,30 @@ theorem pack_length {fr : Frame} {pk : Bytes} (h : fr.pack = .ok pk) : pk.length
     | nil => simp [bind, Except.bind, throw, throwThe, MonadExceptOf.throw] at h
     | cons c cs => simp [bind, Except.bind, pure, Except.pure, le16b] at h; rw [← h]; simp; omega
 
+/-- **Non-duplicate condition** (replaces the former freshness hypothesis `lastRx = none`): the packet the
+    radio accepted last — if it ever accepted one — does not carry the bytes `pk`.  The chip's duplicate
+    test (`Radio.receive`, NrfModel/Radio.lean) drops a packet whose PID, address **and** data all equal those of
+    the last accepted packet; different data is therefore enough, whatever the PID sequence of the senders.
+    Frames of different messages differ in their header (origin, id — `next_id` counts up per origin —
+    type) or payload; a radio that has never received anything satisfies it trivially (`NotDup.of_none`). -/
+abbrev NotDup (r : Radio) (pk : Bytes) : Prop := ∀ l, r.lastRx = some l → l.data ≠ pk
+
+theorem NotDup.of_none {r : Radio} {pk : Bytes} (h : r.lastRx = none) : NotDup r pk := by
+  intro l hl; rw [h] at hl; cases hl
+
+/-- the non-duplicate condition in terms of the frame whose packed bytes travel: the packet the radio
+    accepted last does not carry the packed frame `fr` (8 header bytes — origin, destination, id, type,
+    reserved — and the payload) -/
+abbrev NotDupFrame (r : Radio) (fr : Frame) : Prop := ∀ l, r.lastRx = some l → fr.pack ≠ .ok l.data
+
+theorem NotDupFrame.of_none {r : Radio} {fr : Frame} (h : r.lastRx = none) : NotDupFrame r fr := by
+  intro l hl; rw [h] at hl; cases hl
+
+theorem NotDupFrame.notDup {r : Radio} {fr : Frame} {pk : Bytes} (h : NotDupFrame r fr)
+    (hpk : fr.pack = .ok pk) : NotDup r pk := by
+  intro l hl e
+  exact h l hl (by rw [e]; exact hpk)
+
 /-- **One hop, single frame, closed quiet network, loss-free.**  The running node (listening, on the
     call stack) hands the frame in `frame_buf` (message ≤ 24 bytes) to node `b` — another node, not on
     the call stack, listening with room, whose pipe `p` ∈ 1..5 (and no lower pipe) has the address
@@ -149,7 +173,7 @@ theorem hop_single (hc : L3Contracts) (f : Nat) (s : NetState) (L : LinkCfg) (Pa
     (hrid : ∀ i, i < s.nodes.length → i ≠ s.cur → s.ridAt i ≠ s.ridAt s.cur)
     (hNb : NodeRadio L Pb true true 0x3E (s.nodeAt b).rf (s.radioAt b))
     (haddr : pipeAddress s.node.cfg tn tp = .ok A) (hA : Pb[p]? = some A) (hp1 : 1 ≤ p) (hp5 : p ≤ 5)
-    (hlt : ∀ q, q < p → Pb[q]? ≠ some A) (hdup : (s.radioAt b).lastRx = none)
+    (hlt : ∀ q, q < p → Pb[q]? ≠ some A) (hdup : NotDup (s.radioAt b) pk)
     (hothers : ∀ i pid, i ≠ s.ridAt s.cur → i ≠ s.ridAt b →
       (s.w.radio i).listensTo (unicastPacket L A pk pid) = none)
     (hfaults : s.w.faults = []) (hmsg : s.node.frameBuf.message.length ≤ MAX_FRAG_SIZE)
@@ -184,7 +208,7 @@ theorem hop_single (hc : L3Contracts) (f : Nat) (s : NetState) (L : LinkCfg) (Pa
     (by
       have := hquiet b hb hbc hba
       rw [this]; decide)
-    (by rw [hdup]; simp)
+    (fun e => hdup _ e rfl)
   -- 4. send
   obtain ⟨D4, e4, r4, l4, f4, o4, N4, x4, lr4, _, _⟩ := hc.send D3 L Pa false pk (s.ridAt b) hW3 N3
     (by rw [t3, a3]) (by omega) (by unfold MAX_FRAG_SIZE at hmsg; omega)
@@ -519,7 +543,7 @@ theorem nodeWrite_direct (hc : L3Contracts) (f : Nat) (s : NetState) (L : LinkCf
     (hrid : ∀ i, i < s.nodes.length → i ≠ s.cur → s.ridAt i ≠ s.ridAt s.cur)
     (hNb : NodeRadio L Pb true true 0x3E (s.nodeAt b).rf (s.radioAt b))
     (haddr : pipeAddress s.node.cfg wd tp = .ok A) (hA : Pb[p]? = some A) (hp1 : 1 ≤ p) (hp5 : p ≤ 5)
-    (hlt : ∀ q, q < p → Pb[q]? ≠ some A) (hdup : (s.radioAt b).lastRx = none)
+    (hlt : ∀ q, q < p → Pb[q]? ≠ some A) (hdup : NotDup (s.radioAt b) pk)
     (hothers : ∀ i pid, i ≠ s.ridAt s.cur → i ≠ s.ridAt b →
       (s.w.radio i).listensTo (unicastPacket L A pk pid) = none)
     (hfaults : s.w.faults = []) (hmsg : s.node.frameBuf.message.length ≤ MAX_FRAG_SIZE)
@@ -576,7 +600,7 @@ theorem nodeWrite_hop_noack (hc : L3Contracts) (f : Nat) (s : NetState) (L : Lin
     (hrid : ∀ i, i < s.nodes.length → i ≠ s.cur → s.ridAt i ≠ s.ridAt s.cur)
     (hNb : NodeRadio L Pb true true 0x3E (s.nodeAt b).rf (s.radioAt b))
     (haddr : pipeAddress s.node.cfg tn tp = .ok A) (hA : Pb[p]? = some A) (hp1 : 1 ≤ p) (hp5 : p ≤ 5)
-    (hlt : ∀ q, q < p → Pb[q]? ≠ some A) (hdup : (s.radioAt b).lastRx = none)
+    (hlt : ∀ q, q < p → Pb[q]? ≠ some A) (hdup : NotDup (s.radioAt b) pk)
     (hothers : ∀ i pid, i ≠ s.ridAt s.cur → i ≠ s.ridAt b →
       (s.w.radio i).listensTo (unicastPacket L A pk pid) = none)
     (hfaults : s.w.faults = []) (hmsg : s.node.frameBuf.message.length ≤ MAX_FRAG_SIZE)
